@@ -27,7 +27,7 @@ pub fn logit_data(nmax: usize) -> BoxedStrategy<(String, Mat, Vec<f64>)> {
                 vec(vec(unit(), p), k),                              // class centres
                 vec((any::<u16>(), vec(unit(), p)), n),              // class pick + noise
                 vec((pow10(-1, 2), unit()), p),                      // feature scale and shift
-                Just(vec![-3.0, 0.0, 1.0, 2.5, 10.0]).prop_shuffle(), // label values
+                label_values([-3.0, 0.0, 1.0, 2.5, 10.0]),            // label values (also rescaled / one ulp apart)
                 Just(sep),
             )
         })
@@ -273,7 +273,7 @@ pub fn property() -> Property {
     Property {
         id: "C09",
         quick_mult: 8,
-        rule: "training sets with 1<=p<=6, 6<=n<=60 (quick) / 100 (thorough), 2..4 classes with label values from {-3,0,1,2.5,10}, class centres at separation 0.5 / 1.5 / 6 noise widths (overlapping, moderate, well separated), features scaled by 10^[-1,2] and shifted; alpha in 1e-2..10 (80%) or 0; fresh rows for predict. Quadratics 1/2 x^T Q x - b^T x with Q = R diag(l) R^T of dimension 1..12, cond 3 / 1e2 / 1e4, overall scale 1e-2..1e2, start of norm up to 1e3. non-trivial = >= 3 classes or not well separated (logistic), dimension >= 3 and cond >= 100 (quadratics); distinct = distinct serialised case",
+        rule: "training sets with 1<=p<=6, 6<=n<=60 (quick) / 100 (thorough), 2..4 classes with label values from {-3,0,1,2.5,10} (as they are, rescaled by 2^[-70,40], or replaced by consecutive floating-point numbers one ulp apart), class centres at separation 0.5 / 1.5 / 6 noise widths (overlapping, moderate, well separated), features scaled by 10^[-1,2] and shifted; alpha in 1e-2..10 (80%) or 0; fresh rows for predict. Quadratics 1/2 x^T Q x - b^T x with Q = R diag(l) R^T of dimension 1..12, cond 3 / 1e2 / 1e4, overall scale 1e-2..1e2, start of norm up to 1e3. non-trivial = >= 3 classes or not well separated (logistic), dimension >= 3 and cond >= 100 (quadratics); distinct = distinct serialised case",
         assumptions: vec![
             "stationarity: ||grad F(w*)||_inf <= 1e-5 * max(1, ||grad F(0)||_inf) with our own log-sum-exp objective (intercepts unpenalised); asserted for alpha > 0 only".into(),
             "L-BFGS is driven through the cfg(smartcore_verif) re-export; monotonicity is observed by re-running the deterministic optimiser with max_iter = 1..20".into(),
